@@ -62,6 +62,9 @@ fn check_ref(r: Ref<'_>, v: &Value, depth: usize) -> Result<usize, (String, Stri
                 }
             };
             let mut steps = 0;
+            // spans of the items in iteration order (compared with what the
+            // pair accessor reports for the same cells below)
+            let mut item_spans: Vec<lexpr::datum::Span> = Vec::new();
             loop {
                 steps += 1;
                 if steps > 100_000 {
@@ -88,6 +91,7 @@ fn check_ref(r: Ref<'_>, v: &Value, depth: usize) -> Result<usize, (String, Stri
                     ));
                 }
                 if let (Some(rr), Some(vv)) = (rn, vn) {
+                    item_spans.push(rr.span());
                     visited += check_ref(rr, vv, depth + 1)?;
                 }
                 if re && ve {
@@ -105,6 +109,19 @@ fn check_ref(r: Ref<'_>, v: &Value, depth: usize) -> Result<usize, (String, Stri
                     (Some((rcar, rcdr)), Some((vcar, vcdr))) => {
                         if rcar.value() != vcar || rcdr.value() != vcdr {
                             return Err(("as_pair".into(), "as_pair exposes different car/cdr".into()));
+                        }
+                        // the car reached through the pair accessor is the same
+                        // sub-datum the iterator yields: same span, same shape
+                        if let Some(sp) = item_spans.get(guard - 1) {
+                            if rcar.span() != *sp {
+                                return Err((
+                                    "as_pair-span".into(),
+                                    format!("element {} has span {:?} through list_iter but {:?} through as_pair", guard - 1, sp, rcar.span()),
+                                ));
+                            }
+                        }
+                        if rcar.as_pair().is_some() != vcar.as_pair().is_some() || rcar.list_iter().is_some() != vcar.list_iter().is_some() || rcar.vector_iter().is_some() != vcar.as_slice().is_some() {
+                            return Err(("as_pair".into(), "the car reached through as_pair exposes another shape than the value".into()));
                         }
                         rc = rcdr;
                         vc = vcdr;
